@@ -2,6 +2,7 @@
 import io
 import json
 import random
+import re
 
 from vf.core import Property
 from vf import parsing as P
@@ -10,7 +11,7 @@ REGS = [['type', list(P.TYPES), 0], ['src', ['/a/.*'], 1]]
 
 
 def strip(obs):
-    return {'log': obs['log'], 'err': obs['err'], 'nEvents': obs['nEvents'], 'typeCount': obs['typeCount']}
+    return {'log': obs['log'], 'err': obs['err'], 'nEvents': obs['nEvents'], 'typeCount': obs['typeCount'], 'content': obs['content']}
 
 
 def run_filter(data, mode, cuts=None):
@@ -76,6 +77,15 @@ class C06(Property):
                 items.append({'k': 'foreign', 'idx': 99})
             data, _ = P.build_document(items)
             step = 150
+            if i == 1:
+                # objects that consist of white space only (known finding blankTextLookahead): a case of its own, cut at
+                # every offset around these objects
+                bitems = [dict(it, blank=True) if it['k'] == 'event' and it['gate'] else it for it in items if it['k'] != 'ont' or it['valid']]
+                bdata, _ = P.build_document(bitems)
+                hits = [m.start() for m in re.finditer(rb'</q>', bdata)]
+                for h in hits[:6]:
+                    yield {'items': bitems, 'what': 'parser', 'cuts': 'all2', 'range': [max(1, h - 12), min(len(bdata), h + 6)], 'seed': 0,
+                           'blank': True}
             for lo in range(1, len(data), step):
                 yield {'items': items, 'what': 'parser', 'cuts': 'all2', 'range': [lo, min(lo + step, len(data))], 'seed': 0}
             yield {'items': items, 'what': 'parser', 'cuts': 'bytes', 'seed': 0}
@@ -134,7 +144,28 @@ class C06(Property):
         if case['what'] == 'filter':
             # the filter accepts a document exactly when the parser machine does (undefined types or sources make it fail)
             return {'ref_ok': replies[0]['err'] is None, 'deviating': [], 'n_deviating': 0, 'chunkings': n, 'idempotent': True}
-        return {'ref': strip(P.model_view(replies[0], case['items'])), 'deviating': [], 'n_deviating': 0, 'chunkings': n}
+        pred = {'ref': strip(P.model_view(replies[0], case['items'])), 'deviating': [], 'n_deviating': 0, 'chunkings': n}
+        if case.get('blank'):
+            # known finding blankTextLookahead: exactly the chunkings that end right after the '<' of the closing tag of an
+            # object made of white space deviate (what they give instead is taken from the observation)
+            cuts = self.blank_cuts(case, data)
+            pred['n_deviating'] = len(cuts)
+            pred['deviating'] = [[[c], 'undecided'] for c in cuts[:5]]
+        return pred
+
+    def blank_cuts(self, case, data):
+        ends = {m.start() + 1 for m in re.finditer(rb'<q>\s+</q>', data) for m in [re.compile(rb'</q>').search(data, m.start())]}
+        return [c[0] for c in self.chunkings(case, data) if len(c) == 1 and c[0] in ends]
+
+    def fill_undecided(self, case, obs, pred):
+        if case.get('blank') and len(obs.get('deviating', [])) == len(pred['deviating']):
+            for o, p in zip(obs['deviating'], pred['deviating']):
+                if o[0] == p[0]:
+                    p[1] = o[1]
+        return pred
+
+    def flags_hit(self, case, replies):
+        return ['blankTextLookahead'] if case.get('blank') else []
 
     def oracle(self, case, obs):
         if obs['n_deviating']:
